@@ -135,5 +135,114 @@ func genPrecedence(P *Program, CS *ContractSet, tier string) ([]*Obligation, []s
 	}
 	obls = append(obls, structOb("syntax.Parser.arithmExpr#precedence@power-level", "structural", okPow,
 		"the tightest binary level is the right-associative ** level (tests for Pow and recurses into itself for the right operand); "+detail, ""))
+	// The power level's operands: the left one is parsed by the unary level (bash: unary - + ! ~ bind tighter than **,
+	// so -2**2 is (-2)**2); the unary level parses its own operand with itself and otherwise falls to the value level.
+	unary := firstAssignedCall(fd)
+	obls = append(obls, structOb("syntax.Parser.arithmExpr#precedence@power-operand", "structural", unary != "" && unary != cur,
+		"the ** level parses its left operand with the next tighter level ("+unary+")", ""))
+	ufd, _ := findMethodDecl(P, syntaxPkg, "Parser", unary)
+	okOps, okRec, valueLevel := false, false, ""
+	if ufd != nil && ufd.Body != nil {
+		var caseOps []string
+		ast.Inspect(ufd.Body, func(n ast.Node) bool {
+			if cc, ok := n.(*ast.CaseClause); ok {
+				for _, x := range cc.List {
+					if id, ok := x.(*ast.Ident); ok {
+						caseOps = append(caseOps, id.Name)
+					}
+				}
+				// the operand of a prefix operator is parsed by the unary level itself
+				ast.Inspect(cc, func(m ast.Node) bool {
+					if as, ok := m.(*ast.AssignStmt); ok && len(as.Rhs) == 1 {
+						if call, ok := as.Rhs[0].(*ast.CallExpr); ok {
+							if sel, ok := call.Fun.(*ast.SelectorExpr); ok && sel.Sel.Name == unary {
+								if lhs, ok := as.Lhs[0].(*ast.SelectorExpr); ok && lhs.Sel.Name == "X" {
+									okRec = true
+								}
+							}
+						}
+					}
+					return true
+				})
+			}
+			return true
+		})
+		want := map[string]bool{"Not": true, "BitNegation": true, "Plus": true, "Minus": true}
+		okOps = len(caseOps) == len(want)
+		for _, o := range caseOps {
+			if !want[o] {
+				okOps = false
+			}
+		}
+		// the last statement returns the value level
+		if n := len(ufd.Body.List); n > 0 {
+			if ret, ok := ufd.Body.List[n-1].(*ast.ReturnStmt); ok && len(ret.Results) == 1 {
+				if call, ok := ret.Results[0].(*ast.CallExpr); ok {
+					if sel, ok := call.Fun.(*ast.SelectorExpr); ok {
+						valueLevel = sel.Sel.Name
+					}
+				}
+			}
+		}
+	}
+	obls = append(obls, structOb("syntax.Parser.arithmExpr#precedence@unary-operators", "structural", okOps,
+		"the unary level handles exactly the prefix operators ! ~ + -", ""))
+	obls = append(obls, structOb("syntax.Parser.arithmExpr#precedence@unary-operand", "structural", okRec,
+		"the operand of a prefix operator is parsed by the unary level itself (so that -2**2 is (-2)**2 and !!x nests)", ""))
+	obls = append(obls, structOb("syntax.Parser.arithmExpr#precedence@unary-falls-to-value", "structural", valueLevel != "" && valueLevel != unary && valueLevel != cur,
+		"without a prefix operator the unary level parses a value ("+valueLevel+")", ""))
+	// Above the ternary level: assignment (right-associative, operands: ternary level on the left, itself on the right),
+	// and the comma level as the loosest of all.
+	afd, _ := findMethodDecl(P, syntaxPkg, "Parser", "arithmExprAssign")
+	okAssignLeft, okAssignRight := firstAssignedCall(afd) == "arithmExprTernary", false
+	if afd != nil && afd.Body != nil {
+		ast.Inspect(afd.Body, func(n ast.Node) bool {
+			if as, ok := n.(*ast.AssignStmt); ok && len(as.Rhs) == 1 && len(as.Lhs) == 1 {
+				if call, ok := as.Rhs[0].(*ast.CallExpr); ok {
+					if sel, ok := call.Fun.(*ast.SelectorExpr); ok && sel.Sel.Name == "arithmExprAssign" {
+						okAssignRight = true
+					}
+				}
+			}
+			return true
+		})
+	}
+	obls = append(obls, structOb("syntax.Parser.arithmExpr#precedence@assign-level", "structural", okAssignLeft && okAssignRight,
+		"assignment operators are looser than ?: and right-associative (left operand: ternary level, right operand: assignment level)", ""))
+	cfd, _ := findMethodDecl(P, syntaxPkg, "Parser", "arithmExprComma")
+	cnext, cops, cok := binaryLevel(cfd)
+	obls = append(obls, structOb("syntax.Parser.arithmExpr#precedence@comma-level", "structural", cok && cnext == "arithmExprAssign" && len(cops) == 1 && cops[0] == "Comma",
+		"the comma operator is the loosest level and its operands are assignment expressions", ""))
+	efd, _ := findMethodDecl(P, syntaxPkg, "Parser", "arithmExpr")
+	entry := ""
+	if efd != nil && efd.Body != nil && len(efd.Body.List) == 1 {
+		if ret, ok := efd.Body.List[0].(*ast.ReturnStmt); ok && len(ret.Results) == 1 {
+			if call, ok := ret.Results[0].(*ast.CallExpr); ok {
+				if sel, ok := call.Fun.(*ast.SelectorExpr); ok {
+					entry = sel.Sel.Name
+				}
+			}
+		}
+	}
+	obls = append(obls, structOb("syntax.Parser.arithmExpr#precedence@entry", "structural", entry == "arithmExprComma",
+		"an arithmetic expression is parsed from the loosest (comma) level", ""))
 	return obls, []string{"syntax.Parser.arithmExpr* (precedence chain)"}, nil
+}
+
+// firstAssignedCall: the method called by the first statement `v := p.METHOD(...)` of the function.
+func firstAssignedCall(fd *ast.FuncDecl) string {
+	if fd == nil || fd.Body == nil {
+		return ""
+	}
+	for _, st := range fd.Body.List {
+		if as, ok := st.(*ast.AssignStmt); ok && len(as.Rhs) == 1 {
+			if call, ok := as.Rhs[0].(*ast.CallExpr); ok {
+				if sel, ok := call.Fun.(*ast.SelectorExpr); ok {
+					return sel.Sel.Name
+				}
+			}
+			return ""
+		}
+	}
+	return ""
 }
